@@ -16,7 +16,10 @@ Fillers == << <<32>>, <<10>>, <<9, 9>>, <<45, 45, 32, 99, 10>>, <<45, 45, 40, 99
               <<32, 45, 45, 40, 99, 10, 41, 45, 45, 32>>,
               \* several comments in one gap
               <<45, 45, 40, 99, 41, 45, 45, 32, 45, 45, 40, 100, 41, 45, 45>>, <<45, 45, 32, 99, 10, 45, 45, 32, 100, 10>>,
-              <<45, 45, 32, 99, 10, 45, 45, 40, 100, 41, 45, 45, 10>> >>
+              <<45, 45, 32, 99, 10, 45, 45, 40, 100, 41, 45, 45, 10>>,
+              \* comment edges: `)` and `-` inside a block comment right before its end, empty comments, three dashes
+              <<45, 45, 40, 41, 41, 45, 45>>, <<45, 45, 40, 41, 45, 41, 45, 45>>, <<45, 45, 40, 45, 41, 45, 45>>, <<45, 45, 40, 41, 45, 45>>,
+              <<45, 45, 45, 120, 10>>, <<45, 45, 10>>, <<45, 45, 40, 41, 45, 32, 41, 45, 45>> >>
 
 VARIABLES pi, src, edit, ot
 lvars == <<pi, src, edit, ot>>
